@@ -126,8 +126,8 @@ class TailedTree(btc.TreeScenario):
 
     def assume_ranges(self, it, dmax=1 << 100):
         for i in range(1, self.skeleton_n + 1):
-            it.assume(z3.And(self.d[i] >= 1, self.d[i] < dmax))
-            it.assume(z3.And(self.t[i] >= 0, self.t[i] < (1 << 32)))
+            it.declare_bounds(self.d[i], 1, dmax - 1)
+            it.declare_bounds(self.t[i], 0, (1 << 32) - 1)
 
     def descriptor(self):
         return ('tailed', list(self.parents[:self.skeleton_n - 1]), dict(self.tails))
